@@ -331,6 +331,9 @@ func c07Codecs(h *c07T, v *c07Vec, lr int, real []int, data []byte) {
 		if v.Claim != "true" && cd.ce != "gzip" {
 			continue
 		}
+		if vfQuick() && cd.ce == "zstd" && len(real) > 1 && (len(data)+len(real))%3 != 0 {
+			continue // quick tier: a third of the multi-frame zstd streams
+		}
 		var comp []byte
 		if len(real) <= 1 {
 			comp = cd.enc(nil, data)
